@@ -125,6 +125,9 @@ func (k *comparer) cmpField(f *field, pre, exp, got reflect.Value, cv *cval, pc 
 			absent = true // an inlined struct is mentioned when one of its fields is
 		}
 		switch {
+		case absent && f.inline && !exp.IsNil() && !got.IsNil() && k.sameRef(pre, got):
+			// an inlined pointee nothing is mentioned of: field by field
+			k.cmpStruct(f.sub, deref(pre), exp.Elem(), got.Elem(), nil, pc.below(), "pointee", path)
 		case absent && !equal(exp, got, true):
 			k.violate(unm, path, exp, got, "")
 		case absent && !k.sameRef(pre, got):
@@ -250,7 +253,14 @@ func (k *comparer) cmpField(f *field, pre, exp, got reflect.Value, cv *cval, pc 
 				}
 				(&modeler{cfgs: k.cfgs}).applyField(f, h, cv, polCtx{"default", "none", ""})
 				if equal(h, got, false) {
-					k.violate("map-not-replaced-under-replace-policy:"+pc.src+":"+f.shape()+"@"+where, path, exp, got,
+					shape := f.shape()
+					if f.kind == kMapPrim {
+						shape = "map-of-primitives"
+					}
+					if where == "array-elem" {
+						shape += "@" + where
+					}
+					k.violate("map-not-replaced-under-replace-policy:"+pc.src+":"+shape, path, exp, got,
 						fmt.Sprintf(" (pre-filled %s, setting %s, policy replace from %s: the old entries are still there)", render(h0(pre, f.typ)), renderGo(cv.toGo()), pc.src))
 					return
 				}
